@@ -53,8 +53,9 @@ const (
 )
 
 type expr struct {
-	K string  `json:"k"` // a b X setab setna la | opt star plus sepplus sepstar | seq alt
-	S []*expr `json:"s,omitempty"`
+	K   string   `json:"k"` // a b c X setab setna la | opt star plus sepplus sepstar | seq alt
+	S   []*expr  `json:"s,omitempty"`
+	Sep []string `json:"sep,omitempty"` // sepplus/sepstar: separator terminals (a b c); default: a
 
 	depth, leaves int
 	lang          atomic.Pointer[extsem.Lang] // memoized denotation (nodes are shared between bodies)
@@ -138,7 +139,7 @@ func relabel(e *expr, labels []string, pos *int) *expr {
 		*pos++
 		return &expr{K: k, depth: 0, leaves: 1}
 	}
-	out := &expr{K: e.K, depth: e.depth, leaves: e.leaves}
+	out := &expr{K: e.K, Sep: e.Sep, depth: e.depth, leaves: e.leaves}
 	for _, s := range e.S {
 		out.S = append(out.S, relabel(s, labels, pos))
 	}
@@ -167,16 +168,33 @@ func (e *expr) item() string {
 		return e.S[0].operand() + "*"
 	case "plus":
 		return e.S[0].operand() + "+"
+	case "c":
+		return "tc"
 	case "sepplus":
-		return "(" + e.S[0].parts() + " separator ta)+"
+		return "(" + e.S[0].parts() + " separator " + e.sepText() + ")+"
 	case "sepstar":
-		return "(" + e.S[0].parts() + " separator ta)*"
+		return "(" + e.S[0].parts() + " separator " + e.sepText() + ")*"
 	case "seq":
 		return "(" + e.parts() + ")"
 	case "alt":
 		return "(" + e.S[0].parts() + " | " + e.S[1].parts() + ")"
 	}
 	panic("kind " + e.K)
+}
+
+func (e *expr) seps() []string {
+	if len(e.Sep) == 0 {
+		return []string{"a"}
+	}
+	return e.Sep
+}
+
+func (e *expr) sepText() string {
+	var out []string
+	for _, t := range e.seps() {
+		out = append(out, "t"+t)
+	}
+	return strings.Join(out, " ")
 }
 
 // parts prints e as a list of rule parts (no top-level '|').
@@ -269,16 +287,39 @@ func denote1(e *expr) *extsem.Lang {
 		return extsem.LStar(denote(e.S[0]))
 	case "plus":
 		return extsem.LPlus(denote(e.S[0]))
+	case "c":
+		return lC
 	case "sepplus":
-		return extsem.LSepPlus(denote(e.S[0]), lA)
+		return extsem.LSepPlus(denote(e.S[0]), sepLang(e))
 	case "sepstar":
-		return extsem.LOpt(extsem.LSepPlus(denote(e.S[0]), lA))
+		return extsem.LOpt(extsem.LSepPlus(denote(e.S[0]), sepLang(e)))
 	case "seq":
 		return extsem.LConcat(denote(e.S[0]), denote(e.S[1]))
 	case "alt":
 		return extsem.LUnion(denote(e.S[0]), denote(e.S[1]))
 	}
 	panic("kind " + e.K)
+}
+
+func termOf(name string) int {
+	switch name {
+	case "a":
+		return tA
+	case "b":
+		return tB
+	case "c":
+		return tC
+	}
+	panic("terminal " + name)
+}
+
+// sepLang is the one-string language of the separator sequence.
+func sepLang(e *expr) *extsem.Lang {
+	l := lEps
+	for _, t := range e.seps() {
+		l = extsem.LConcat(l, extsem.LSym(numTerms, maxLen, termOf(t)))
+	}
+	return l
 }
 
 func reference(e *expr) refLangs {
@@ -367,6 +408,8 @@ func (b *modelBuilder) conv(e *expr) *syntax.Expr {
 		return b.ref(tA)
 	case "b":
 		return b.ref(tB)
+	case "c":
+		return b.ref(tC)
 	case "X":
 		return b.ref(ntX)
 	case "setab":
@@ -394,7 +437,16 @@ func (b *modelBuilder) conv(e *expr) *syntax.Expr {
 		b.pos = 0
 		subs := []*syntax.Expr{b.conv(e.S[0])}
 		if e.K == "sepplus" || e.K == "sepstar" {
-			subs = append(subs, &syntax.Expr{Kind: syntax.Reference, Symbol: tA, Model: b.m, Origin: o})
+			// like compiler/syntax.go convertSeparator: one reference, or a sequence of them
+			var refs []*syntax.Expr
+			for _, t := range e.seps() {
+				refs = append(refs, &syntax.Expr{Kind: syntax.Reference, Symbol: termOf(t), Model: b.m, Origin: o})
+			}
+			if len(refs) == 1 {
+				subs = append(subs, refs[0])
+			} else {
+				subs = append(subs, &syntax.Expr{Kind: syntax.Sequence, Sub: refs, Origin: o})
+			}
 		}
 		b.pos = saved + 1
 		return &syntax.Expr{Kind: syntax.List, Sub: subs, ListFlags: flags, Pos: b.pos, Origin: o}
@@ -670,6 +722,38 @@ func check(cs *cas) (res result) {
 
 // ---------- enumeration
 
+// twins: two lists over the SAME element that differ in one detail (kind of list, separator of one or
+// two terminals in every order, + versus *), in one body, so that a wrongly shared extracted
+// nonterminal changes the language: `L1 | tc L2` and `L1 tc L2` for every ordered pair.
+func twins() []*expr {
+	seps := [][]string{{"a"}, {"b"}, {"c"}, {"a", "b"}, {"b", "a"}, {"b", "c"}, {"c", "b"}, {"b", "b"}}
+	elems := []func() *expr{
+		func() *expr { return mk("a") },
+		func() *expr { return mk("X") },
+		func() *expr { return mk("seq", mk("a"), mk("b")) },
+		func() *expr { return mk("opt", mk("a")) },
+	}
+	var out []*expr
+	for _, el := range elems {
+		var variants []func() *expr
+		variants = append(variants, func() *expr { return mk("star", el()) }, func() *expr { return mk("plus", el()) })
+		for _, sp := range seps {
+			sp := sp
+			for _, k := range []string{"sepplus", "sepstar"} {
+				k := k
+				variants = append(variants, func() *expr { e := mk(k, el()); e.Sep = sp; return e })
+			}
+		}
+		for _, v1 := range variants {
+			for _, v2 := range variants {
+				out = append(out, mk("alt", v1(), mk("seq", mk("c"), v2())))
+				out = append(out, mk("seq", v1(), mk("seq", mk("c"), v2())))
+			}
+		}
+	}
+	return out
+}
+
 type violation struct {
 	key, what string
 	cs        *cas
@@ -737,7 +821,7 @@ func run(c *core.Ctx) {
 		go func() { time.Sleep(40 * time.Second); pprof.StopCPUProfile(); os.Exit(0) }()
 	}
 	c.Rule("bodies enumerated by (depth, leaves), simplest first, over 6 leaf kinds {ta, tb, X, set(ta|tb), set(~ta), (?= X)}, 5 unary and 2 binary " +
-		"operators: every expression of depth<=2 and of depth 3 with one leaf; every depth-3 operator shape with 2..4 leaves under a fixed list of leaf " +
+		"operators: every expression of depth<=2 and of depth 3 with one leaf; twins = every ordered pair of two lists over the same element (4 elements x 18 list forms with separators of 1 and 2 terminals in all orders, + and *) combined as L1 | tc L2 and L1 tc L2; every depth-3 operator shape with 2..4 leaves under a fixed list of leaf " +
 		"labelings (thorough: all 36 labelings for 2 leaves, then all 216 labelings for 3 leaves and 24 more for 4 leaves one labeling per level " +
 		"until 18 minutes have passed). Each body goes " +
 		"through compiler.Compile (tm layer) and through syntax.Expand on a hand-built model with subsets of its lists right-recursive (model layer). " +
@@ -781,6 +865,7 @@ func run(c *core.Ctx) {
 	lab2 := [][]string{{"a", "a"}, {"a", "X"}, {"la", "b"}, {"setab", "setna"}}
 	lab3 := [][]string{{"a", "a", "la"}}
 	lab4 := [][]string{{"a", "la", "a", "X"}}
+	levels = append(levels, level{name: "twins", bodies: twins, masks: "nonzero"})
 	if c.Quick() {
 		levels = append(levels, labeled(2, lab2, "ones"), labeled(3, lab3, "ones"), labeled(4, lab4, "none"))
 	} else {
